@@ -409,19 +409,6 @@ func applySetUpdates(dir string, opts GlobalOptions, id string, updates map[stri
 	lockPath := filepath.Join(dir, "lock")
 	eventsPath := getEventsPath(dir)
 
-	// result.path + result.summary come as a pair; the attachment is validated and recorded in the
-	// same lock section as the other fields, so the command applies all of its fields or none.
-	resultPath, hasPath := updates["result.path"]
-	resultSummary, hasSummary := updates["result.summary"]
-	if hasPath || hasSummary {
-		if !hasPath {
-			return errors.New("result.summary requires result.path=")
-		}
-		if !hasSummary {
-			return errors.New("result.path requires result.summary=")
-		}
-	}
-
 	return withLock(lockPath, syscall.LOCK_EX, func() error {
 		graph, err := loadGraph(dir)
 		if err != nil {
@@ -436,62 +423,12 @@ func applySetUpdates(dir string, opts GlobalOptions, id string, updates map[stri
 			return fmt.Errorf("unknown task id %s", id)
 		}
 
-		var resultEvents []Event
-		if hasPath {
-			if isEpic(task) {
-				return errors.New("cannot attach result to epic")
-			}
-			event, err := buildResultEvent(dir, id, resultSummary, resultPath)
-			if err != nil {
-				return err
-			}
-			resultEvents = append(resultEvents, event)
-			delete(updates, "result.path")
-			delete(updates, "result.summary")
-		}
-
-		// Epics cannot have state or claim
-		if isEpic(task) {
-			if _, hasState := updates["state"]; hasState {
-				return errors.New("epics do not have state")
-			}
-			if _, hasClaim := updates["claim"]; hasClaim {
-				return errors.New("epics cannot be claimed")
-			}
-		}
-
-		// A task may only be filed under an existing, unpruned epic ("" unassigns).
-		if epicID, hasEpic := updates["epic"]; hasEpic && epicID != "" && !isEpic(task) {
-			if _, pruned := graph.Tombstones[epicID]; pruned {
-				return prunedErr(epicID)
-			}
-			parent, ok := graph.Tasks[epicID]
-			if !ok {
-				return fmt.Errorf("unknown epic id %s", epicID)
-			}
-			if !isEpic(parent) {
-				return fmt.Errorf("task %s is not an epic", epicID)
-			}
-		}
-
-		now := time.Now().UTC()
-
-		// Build events using pure function, passing I/O-dependent body resolver
-		events, remainingUpdates, err := buildSetEvents(id, task, updates, agentID, now, identityBodyResolver)
+		events, err := buildUpdateEvents(dir, graph, id, task, updates, agentID, time.Now().UTC())
 		if err != nil {
 			return err
 		}
 
-		// Check for any unhandled keys
-		if len(remainingUpdates) > 0 {
-			var unknown []string
-			for key := range remainingUpdates {
-				unknown = append(unknown, key)
-			}
-			return fmt.Errorf("unknown keys: %s", strings.Join(unknown, ", "))
-		}
-
-		if err := appendEvents(eventsPath, append(resultEvents, events...)); err != nil {
+		if err := appendEvents(eventsPath, events); err != nil {
 			return err
 		}
 		if err := captureCommitted(dir, view); err != nil {
@@ -502,6 +439,78 @@ func applySetUpdates(dir string, opts GlobalOptions, id string, updates map[stri
 		}
 		return nil
 	})
+}
+
+// buildUpdateEvents validates one update request against the graph and returns all events it records:
+// the result attachment (validated here, with its evidence) followed by the field updates. The caller
+// holds the store lock and appends them in one batch, so a request applies all of its fields or none.
+func buildUpdateEvents(dir string, graph *Graph, id string, task *Task, updates map[string]string, agentID string, now time.Time) ([]Event, error) {
+	// result.path + result.summary come as a pair
+	resultPath, hasPath := updates["result.path"]
+	resultSummary, hasSummary := updates["result.summary"]
+	if hasPath || hasSummary {
+		if !hasPath {
+			return nil, errors.New("result.summary requires result.path=")
+		}
+		if !hasSummary {
+			return nil, errors.New("result.path requires result.summary=")
+		}
+	}
+
+	var resultEvents []Event
+	if hasPath {
+		if isEpic(task) {
+			return nil, errors.New("cannot attach result to epic")
+		}
+		event, err := buildResultEvent(dir, id, resultSummary, resultPath)
+		if err != nil {
+			return nil, err
+		}
+		resultEvents = append(resultEvents, event)
+		delete(updates, "result.path")
+		delete(updates, "result.summary")
+	}
+
+	// Epics cannot have state or claim
+	if isEpic(task) {
+		if _, hasState := updates["state"]; hasState {
+			return nil, errors.New("epics do not have state")
+		}
+		if _, hasClaim := updates["claim"]; hasClaim {
+			return nil, errors.New("epics cannot be claimed")
+		}
+	}
+
+	// A task may only be filed under an existing, unpruned epic ("" unassigns).
+	if epicID, hasEpic := updates["epic"]; hasEpic && epicID != "" && !isEpic(task) {
+		if _, pruned := graph.Tombstones[epicID]; pruned {
+			return nil, prunedErr(epicID)
+		}
+		parent, ok := graph.Tasks[epicID]
+		if !ok {
+			return nil, fmt.Errorf("unknown epic id %s", epicID)
+		}
+		if !isEpic(parent) {
+			return nil, fmt.Errorf("task %s is not an epic", epicID)
+		}
+	}
+
+	// Build events using pure function, passing I/O-dependent body resolver
+	events, remainingUpdates, err := buildSetEvents(id, task, updates, agentID, now, identityBodyResolver)
+	if err != nil {
+		return nil, err
+	}
+
+	// Check for any unhandled keys
+	if len(remainingUpdates) > 0 {
+		var unknown []string
+		for key := range remainingUpdates {
+			unknown = append(unknown, key)
+		}
+		return nil, fmt.Errorf("unknown keys: %s", strings.Join(unknown, ", "))
+	}
+
+	return append(resultEvents, events...), nil
 }
 
 // buildSetEvents generates the event list for a set command.
